@@ -827,6 +827,79 @@ def b_choice():
             f"def engine_perm_out_2d : List Nat := {li(perms[1][0])}\ndef engine_perm_out_3d : List Nat := {li(perms[1][1])}\n")
 
 
+# ---- how enum-valued options are compared ------------------------------------------------------------------
+ENUM_CLASSES = [(MT, "EstimateSensitivityMapModule"), ("direct/algorithms/mri_algorithms.py", "EspiritCalibration")]
+
+
+def b_enum_compares():
+    """every comparison / membership test / key use of an enum-valued option (a constructor parameter annotated with a
+    `DirectEnum` subclass, and the attribute it is stored in) in the covered classes.  `DirectEnum.__eq__` is case-insensitive
+    against strings while its hash is not the string's hash: only `==` / `!=` treat every accepted form alike."""
+    from ..pyexpr import parse_file
+    types = parse_file(_repo() / "direct/types.py")
+    enums = {c.name for c in types.body if isinstance(c, ast.ClassDef) and any("DirectEnum" in ast.unparse(b) for b in c.bases)}
+    mtree = _tree(MT)
+    enums |= {c.name for c in mtree.body if isinstance(c, ast.ClassDef) and any("DirectEnum" in ast.unparse(b) for b in c.bases)}
+    rows = []
+    for file, cname in ENUM_CLASSES:
+        tree = _tree(file)
+        cls = [c for c in tree.body if isinstance(c, ast.ClassDef) and c.name == cname]
+        if not cls:
+            raise Untranslatable(f"class {cname} not found")
+        cls = cls[0]
+        init = [f for f in cls.body if isinstance(f, ast.FunctionDef) and f.name == "__init__"]
+        if not init:
+            raise Untranslatable(f"{cname}.__init__ not found")
+        params = {a.arg for a in init[0].args.args if a.annotation is not None and any(e in ast.unparse(a.annotation) for e in enums)}
+        attrs = set()
+        for st in ast.walk(init[0]):
+            if isinstance(st, ast.Assign) and isinstance(st.value, ast.Name) and st.value.id in params:
+                for t in st.targets:
+                    if isinstance(t, ast.Attribute) and ast.unparse(t.value) == "self":
+                        attrs.add("self." + t.attr)
+
+        def opt(e, fname):
+            t = ast.unparse(e)
+            if t in attrs:
+                return t[5:]
+            if fname == "__init__" and isinstance(e, ast.Name) and e.id in params:
+                return e.id
+            return None
+
+        opname = {ast.Eq: "==", ast.NotEq: "!=", ast.Is: "is", ast.IsNot: "is not", ast.In: "in", ast.NotIn: "not in"}
+        for fn in [f for f in cls.body if isinstance(f, ast.FunctionDef)]:
+            for n in ast.walk(fn):
+                if isinstance(n, ast.Compare):
+                    operands = [n.left] + list(n.comparators)
+                    for k, op in enumerate(n.ops):
+                        for side in (operands[k], operands[k + 1]):
+                            o = opt(side, fn.name)
+                            if o:
+                                rows.append((f"{cname}.{fn.name}", o, opname.get(type(op), type(op).__name__)))
+                elif isinstance(n, ast.Subscript) and opt(n.slice, fn.name):
+                    rows.append((f"{cname}.{fn.name}", opt(n.slice, fn.name), "subscript-key"))
+                elif isinstance(n, ast.Call) and isinstance(n.func, ast.Attribute) and n.func.attr in ("get", "pop", "index", "count") \
+                        and any(opt(a, fn.name) for a in n.args):
+                    rows.append((f"{cname}.{fn.name}", [opt(a, fn.name) for a in n.args if opt(a, fn.name)][0], "lookup:" + n.func.attr))
+                elif isinstance(n, ast.Match) and opt(n.subject, fn.name):
+                    rows.append((f"{cname}.{fn.name}", opt(n.subject, fn.name), "match"))
+                elif isinstance(n, (ast.Dict, ast.Set)):
+                    keys = n.keys if isinstance(n, ast.Dict) else n.elts
+                    for kx in keys:
+                        if kx is not None and opt(kx, fn.name):
+                            rows.append((f"{cname}.{fn.name}", opt(kx, fn.name), "hashed-literal"))
+    seen, out = set(), []
+    for r in rows:
+        if r not in seen:
+            seen.add(r)
+            out.append(r)
+    if not any(r[1] == "type_of_map" for r in out):
+        raise Untranslatable("no comparison of type_of_map found")
+    return ("/-- how enum-valued options are compared in the covered classes: (function, option, operator) -/\n"
+            "def enum_compares : List (String × String × String) := [\n"
+            + ",\n".join(f"  ({_s(a)}, {_s(b)}, {_s(c)})" for a, b, c in out) + "\n]\n")
+
+
 CHOICE_FALLBACK = ("def engine_model_choice (multicoil has2d has3d : Bool) (ndim : Int) : Nat := modelChoice multicoil has2d has3d ndim\n"
                    "def engine_perm_in_2d : List Nat := permIn2d\ndef engine_perm_in_3d : List Nat := permIn3d\n"
                    "def engine_perm_out_2d : List Nat := permOut2d\ndef engine_perm_out_3d : List Nat := permOut3d\n")
@@ -840,4 +913,5 @@ TABLES = [
                                         "def builder_passthrough : List (String × String) := passthroughRequired\n"),
     ("compute_sensitivity_map_defs", b_defs, "def compute_sensitivity_map_defs : List (String × String) := computeDefs\n"),
     ("engine_model_choice", b_choice, CHOICE_FALLBACK),
+    ("enum_compares", b_enum_compares, "def enum_compares : List (String × String × String) := []\n"),
 ]
